@@ -76,6 +76,43 @@ impl VRFKeyStorage for KeyVrf {
     }
 }
 
+/// A VRF key storage whose batch derivation (`get_node_labels`) answers in ANOTHER ORDER than it was
+/// asked (reversed, rotated or seeded shuffle) - as a remote VRF service with varying latency, or the
+/// stock parallel implementation on a multi-thread runtime, may.  Every returned pair is correct.
+#[derive(Clone)]
+pub struct ShufVrf(pub KeyVrf, pub u64);
+
+#[async_trait::async_trait]
+impl VRFKeyStorage for ShufVrf {
+    async fn retrieve(&self) -> Result<Vec<u8>, VrfError> {
+        self.0.retrieve().await
+    }
+    async fn get_node_labels<TC: Configuration>(
+        &self,
+        labels: &[(AkdLabel, VersionFreshness, u64, AkdValue)],
+    ) -> Result<Vec<((AkdLabel, VersionFreshness, u64, AkdValue), NodeLabel)>, VrfError> {
+        let mut out = vec![];
+        for (l, f, v, val) in labels {
+            let nl = self.0.get_node_label::<TC>(l, *f, *v).await?;
+            out.push(((l.clone(), *f, *v, val.clone()), nl));
+        }
+        match self.1 % 3 {
+            0 => out.reverse(),
+            1 => {
+                if !out.is_empty() {
+                    let k = (self.1 as usize / 3) % out.len();
+                    out.rotate_left(k);
+                }
+            }
+            _ => {
+                let mut r = crate::rng::Rng::derive(self.1, "shufvrf", out.len() as u64);
+                r.shuffle(&mut out);
+            }
+        }
+        Ok(out)
+    }
+}
+
 pub fn hx(b: &[u8]) -> String {
     if b.len() <= 12 {
         hex::encode(b)
